@@ -18,6 +18,8 @@ TRANSFORM_MODES = [
     ("in-readonly", H + "/readonly_in.sh $IN", []),
     ("in-out", H + "/cp.sh $IN $OUT", []),
     ("in-place-copy", H + "/inplace_upper.sh $IN", ["--in-place"]),
+    ("in-place-copy-bak", H + "/inplace_bak.sh $IN", ["--in-place"]),
+    ("in-bak", H + "/inplace_bak.sh $IN", []),
     ("in-place-nocopy-readonly", H + "/readonly_in.sh $IN", ["--in-place", "--no-copy"]),
     ("in-place-nocopy-true", "true $IN", ["--in-place", "--no-copy"]),
     ("in-nocopy-cat", "cat $IN", ["--no-copy"]),
@@ -25,7 +27,7 @@ TRANSFORM_MODES = [
 ]
 
 RULE = ("generated trees (hard links, symlinks, hostile names) x `group` in every transform I/O mode (stdin->stdout, $IN, "
-        "$IN+$OUT, --in-place, --in-place --no-copy and --no-copy with programs that only read, ignore or fail), --cache, "
+        "$IN+$OUT, --in-place (also with a program that leaves a FILE.bak companion next to its input), --in-place --no-copy and --no-copy with programs that only read, ignore or fail), --cache, "
         "-o file, all formats, and every dedupe operation with --dry-run and random options. Oracle 1: full inventory "
         "(paths, bytes, link structure, inode, mode, mtime_ns) identical before/after, $TMPDIR empty afterwards, nothing but "
         "fclones/ under $XDG_CACHE_HOME. Oracle 2: the LD_PRELOAD log (inherited by transform children) shows zero mutating "
